@@ -23,7 +23,10 @@ THEOREMS = ['C10_rot_group', 'C10_rot_steps', 'C10_rot_inverse', 'C10_mir_involu
             'C10_dlon_equivariant', 'C10_l_operators_equivariant', 'C10_lat_derivatives_rot_equivariant',
             'C10_lat_derivatives_mirror_sign', 'C10_vector_calculus_mirror', 'C10_vector_calculus_rot',
             'C10_coriolis_symmetry', 'C10_step_equivariant', 'C10_trajectory_equivariant',
-            'C10_leapfrog_trajectory_equivariant', 'C10_integrators_equivariant', 'C10_example']
+            'C10_leapfrog_trajectory_equivariant', 'C10_integrators_equivariant',
+            'C10_primeq_nodal_shift_equivariant', 'C10_primeq_nodal_mirror_equivariant', 'C10_get_cos_lat_vector_mirror',
+            'C10_primeq_columns_of_mirrored_state', 'C10_primeq_tendency_mirror_equivariant',
+            'C10_primeq_mirrored_state_tendency', 'C10_primeq_humidity_mirror', 'C10_example']
 LEVEL = 'proof'
 LEVEL_TEXT = ('machine-checked theorems (Coq), for every field and all sizes: the rotation tables form a group acting on '
               'modal arrays (bijective when c^2+s^2=1), the mirror is an involution commuting with rotations; synthesis and '
@@ -33,12 +36,18 @@ LEVEL_TEXT = ('machine-checked theorems (Coq), for every field and all sizes: th
               'mirror parity, so grad maps scalars to (even, odd) vectors, div is a scalar, curl a pseudo-scalar and k-cross '
               'flips; every map built from equivariant F, G, G_inv by linear combinations (all integrators of '
               'time_integration.py, any tableau) is equivariant, hence k-step trajectories with equivariant filters. '
-              'The table hypotheses are re-checked numerically on every explored grid; the composition into the full '
-              'nonlinear tendencies of the implementation is decided by the equivariance oracles on the implementation '
-              '(exploration), for every grid-step rotation and the mirror.')
+              'For the mirror the composition is proved through the explicit primitive-equation tendencies: every nodal '
+              'expression of the column algebra of Model/PrimEq.v (dry, moist, cloud classes; all K, all level sets) has '
+              'the parity the modal stage expects, and the assembled temperature / tracer / lnps / divergence tendencies '
+              'of the mirrored modal state are the mirrored scalars, the vorticity tendency the mirrored pseudo-scalar, '
+              'with the concrete transforms and spectral operators under H_parity and H_nodes_sym. '
+              'The table hypotheses are re-checked numerically on every explored grid; rotations of the full tendencies '
+              '(beyond the pointwise nodal stage), shallow water, Held-Suarez and the implicit parts are decided by the '
+              'equivariance oracles on the implementation (exploration), for every grid-step rotation and the mirror.')
 LEVEL_NOTE = ('theorems are about the Gallina models (Model/Symmetry.v actions, Model/SHT.v transforms, Model/Deriv.v '
-              'operators, Model/Invariants.v step terms); the full primitive-equation tendency is not modelled term by term '
-              'in Coq - its equivariance on the implementation is explored (oracles), the building blocks are proved')
+              'operators, Model/Invariants.v step terms, Model/PrimEq.v nodal column algebra - the latter tied to the code by '
+              'property C04); mirror equivariance of the assembled explicit primitive-equation tendencies is proved, '
+              'rotation equivariance of the assembled tendencies, shallow water and Held-Suarez are explored (oracles)')
 TECHNIQUE = 'Coq proof of equivariance of every building block and of the integrator term language; table obligations; equivariance oracles on the implementation'
 
 TOL = 1e-11
@@ -155,7 +164,9 @@ def _basis_tables(g):
 GRIDS_QUICK = [dict(M=4, L=5, I=13, J=7, spacing='gauss', impl='real', offset=0.0),
                dict(M=4, L=5, I=13, J=7, spacing='gauss', impl='fast', offset=0.25),
                dict(M=3, L=4, I=10, J=6, spacing='equiangular', impl='real', offset=-0.5),
-               dict(M=3, L=4, I=10, J=5, spacing='equiangular_with_poles', impl='fast', offset=0.1)]
+               dict(M=3, L=4, I=10, J=5, spacing='equiangular_with_poles', impl='fast', offset=0.1),
+               # the stacked Fourier path (default only above 128 wavenumbers) must be exercised explicitly
+               dict(M=4, L=5, I=13, J=7, spacing='gauss', impl='fast', offset=0.0, fast_kw=dict(stacked_fourier_transforms=True))]
 GRIDS_THOROUGH = GRIDS_QUICK + [
     dict(M=4, L=5, I=12, J=6, spacing='gauss', impl='real', offset=0.0),
     dict(M=5, L=6, I=16, J=8, spacing='gauss', impl='fast', offset=1.0),
@@ -178,6 +189,8 @@ def generate(ctx):
         yield 'actions', dict(g, seed=int(rng.integers(0, 2 ** 31)))
         yield 'sht', dict(g, seed=int(rng.integers(0, 2 ** 31)))
         yield 'ops', dict(g, seed=int(rng.integers(0, 2 ** 31)))
+    for g in grids[:2] if quick else grids[:3]:
+        yield 'diag', dict(g, seed=int(rng.integers(0, 2 ** 31)))
     def dyn_case(kind, impl='real', spacing='gauss', integrator=None, filters=(), nsteps=0, ks='all', **extra):
         a = dict(DYN_GRID, impl=impl, spacing=spacing, kind=kind, integrator=integrator, filters=list(filters), nsteps=nsteps,
                  ks=ks, seed=int(rng.integers(0, 2 ** 31)), **extra)
@@ -189,6 +202,7 @@ def generate(ctx):
         yield dyn_case('sw', integrator='crank_nicolson_rk2', filters=['exponential'], nsteps=3)
         yield dyn_case('hs')
         yield dyn_case('dry', impl='fast', spacing='equiangular', integrator='backward_forward_euler', nsteps=1)
+        yield dyn_case('dry', impl='fast', fast_kw=dict(stacked_fourier_transforms=True))
     else:
         for kind in ('dry', 'time', 'moist', 'cloud', 'sw'):
             for integ in dyn.INTEGRATORS:
@@ -473,4 +487,28 @@ def r_dynamics(ctx, a):
         for k2, v2 in sorted(_WORST.items()): print('   worst rel err %.2e  %s' % (v2, k2))
 
 
-RUNNERS = {'tables': r_tables, 'actions': r_actions, 'sht': r_sht, 'ops': r_ops, 'dynamics': r_dynamics}
+def r_diag(ctx, a):
+    """the per-node inputs of the nodal column algebra (Model/PrimEq.v NCol, Model/Symmetry.v ncol_mirror) on the
+    implementation: compute_diagnostic_state of the transformed state = permuted nodal fields with the parities
+    u even, v odd, vorticity odd, divergence / T' / tracers even, grad lnps (even, odd), sigma_dot even."""
+    rng = np.random.Generator(np.random.PCG64(a['seed'])); m = dyn.mods(); pe = m['pe']; jax = m['jax']
+    g = _grid(a); c = dyn.coords(g, util.uneven_boundaries(rng, 3))
+    st = dyn.pe_state(rng, c, g.total_wavenumbers - 2, ('specific_humidity',))
+    f = jax.jit(lambda x: pe.compute_diagnostic_state(x, c))
+    base = f(_to_jnp(st))
+    odd = {'vorticity': True, 'cos_lat_u': (False, True), 'cos_lat_grad_log_sp': (False, True)}
+    for T in _syms(g, rng, ks=2):
+        res = f(_to_jnp(T.state(st)))
+        for name in ('vorticity', 'divergence', 'temperature_variation', 'cos_lat_u', 'sigma_dot_explicit', 'sigma_dot_full',
+                     'cos_lat_grad_log_sp', 'u_dot_grad_log_sp', 'tracers'):
+            u = getattr(res, name); v = getattr(base, name); od = odd.get(name, False)
+            if isinstance(od, tuple):
+                want = [T.nodal(np.asarray(t), odd=o) for t, o in zip(v, od)]; got = [np.asarray(t) for t in u]
+            else:
+                want = jax.tree_util.tree_map(lambda t: T.nodal(np.asarray(t), odd=od), v); got = dyn.tree_to_np(u)
+            _close(ctx, f'diagnostic state of T x: {name} is the permuted nodal field with parity '
+                        f'{"(even, odd)" if isinstance(od, tuple) else ("odd" if od else "even")}', got, want)
+        ctx.count('sym:' + ('mirror' if T.mirror else 'rot'))
+
+
+RUNNERS = {'diag': r_diag, 'tables': r_tables, 'actions': r_actions, 'sht': r_sht, 'ops': r_ops, 'dynamics': r_dynamics}
